@@ -46,6 +46,10 @@ impl DeadCodeEliminator {
         let mut found_terminator = false;
         stmts.retain(|stmt| {
             if found_terminator {
+                // a struct declaration is not code: other declarations may name it, wherever it stands
+                if matches!(stmt.kind, TypedStmtKind::StructDecl { .. }) {
+                    return true;
+                }
                 self.stats.dead_code_eliminated += 1;
                 return false;
             }
